@@ -13,8 +13,8 @@ import random
 
 from pv.ref.refpeg import nullable, walk
 
-LITS = ["a", "b", "ab", "ba", "aa", "c", "bc"]
-CI_LITS = ["a", "ab", "B", "Ab"]
+LITS = ["a", "b", "ab", "ba", "aa", "c", "bc", "abc", "bab"]
+CI_LITS = ["a", "ab", "B", "Ab", "abc", "aBc", "bab"]
 RANGES = [("a", "b"), ("a", "c"), ("b", "b"), ("A", "B"), ("a", "z")]
 BUILTINS = ["ASCII_ALPHA_LOWER", "ASCII_ALPHA", "ASCII_ALPHA_UPPER", "ASCII_ALPHANUMERIC", "ASCII_HEX_DIGIT", "ASCII_DIGIT"]
 
@@ -30,7 +30,13 @@ CM_BODIES = [
     ("seq", [("str", "#"), ("star", ("range", "a", "c"))]),
     ("seq", [("str", "/*"), ("star", ("seq", [("not", ("str", "*/")), ("any",)])), ("str", "*/")]),
     ("seq", [("str", "#"), ("str", "#")]),
+    # a negative predicate the skip pass cannot turn into a substring search (built-in + range operands)
+    ("seq", [("str", "#"), ("star", ("seq", [("not", ("alt", [("newline",), ("range", "x", "z")])), ("any",)]))]),
 ]
+# trivia bodies that call other rules (only for the relative properties: pest hides such pairs, the statements do not say)
+WS_REF_BODIES = [("seq", [("ref", "wsp"), ("opt", ("str", "_"))]), ("alt", [("ref", "wsp"), ("str", "\t")])]
+CM_REF_BODIES = [("seq", [("ref", "copen"), ("str", "x")]), ("seq", [("ref", "copen"), ("star", ("range", "a", "c")), ("str", ";")])]
+TRIVIA_HELPERS = {"wsp": ("", ("str", " ")), "copen": ("", ("str", "#"))}
 
 PROFILES: dict[str, dict] = {
     # C03: core operators, normal and silent rules, no trivia, no stack
@@ -64,11 +70,15 @@ class GrammarGen:
                     ("peek",), ("pop",), ("pop",), ("drop",), ("peekall",), ("popall",),
                     ("pushlit", r.choice(["a", "b", "ab"])),
                     ("push", self.nonnull_simple()),
-                    ("push", self.nonnull_simple()),
+                    ("push", self.nonnull_simple() if not self.p.get("push_empty") else r.choice([("opt", ("str", "a")), ("star", ("str", "b")), ("alt", [("str", "ab"), ("str", "")]), self.nonnull_simple()])),
                     ("slice", r.choice([None, 0, 1, -1]), r.choice([None, 1, 2, -1])),
                 ]
             )
         c = r.random()
+        if self.p.get("trivia_explicit") and self.p.get("trivia") and c < 0.05:
+            return ("ref", r.choice(["WHITESPACE", "COMMENT"]))
+        if self.p.get("ci_nonascii") and c < 0.06:
+            return ("ci", r.choice(["\u00df", "\u00e9", "\u01c6", "\u0130", "\u212a", "k\u00e9"]))
         if c < 0.45:
             return ("str", r.choice(LITS))
         if c < 0.55:
@@ -158,6 +168,9 @@ class GrammarGen:
         return ("group", sub())
 
     def grammar(self, nrules=None, maxdepth=3) -> dict:
+        from pv.ref import refpeg
+
+        refpeg.STACK_MAY_HOLD_EMPTY[0] = bool(self.p.get("push_empty"))
         r = self.r
         n = nrules or r.randint(1, 5)
         names = [f"r{i}" for i in range(n)]
@@ -177,11 +190,189 @@ class GrammarGen:
         tv = self.p.get("trivia")
         if tv:
             c = r.choice(tv)
+            refs = self.p.get("trivia_refs") and r.random() < 0.35
             if "w" in c:
-                out["WHITESPACE"] = (r.choice(["_", "_", ""]), r.choice(WS_BODIES))
+                out["WHITESPACE"] = (r.choice(["_", "_", ""]), r.choice(WS_REF_BODIES if refs and r.random() < 0.5 else WS_BODIES))
             if "c" in c:
-                out["COMMENT"] = (r.choice(["_", "_", ""]), r.choice(CM_BODIES))
+                out["COMMENT"] = (r.choice(["_", "_", ""]), r.choice(CM_REF_BODIES if refs else CM_BODIES))
+            for _n, (_m, x) in list(out.items()):
+                for nd in walk(x):
+                    if nd[0] == "ref" and nd[1] in TRIVIA_HELPERS:
+                        out[nd[1]] = TRIVIA_HELPERS[nd[1]]
+            # an explicit reference to a trivia rule that this grammar does not define becomes a plain literal
+            for nm in list(out):
+                m, x = out[nm]
+                out[nm] = (m, _replace_missing_trivia_refs(x, out))
         return out
+
+
+HOSTILE_NAMES = [
+    "a", "A", "x", "X", "_x", "_x_", "__x__", "class", "def", "None", "import", "lambda", "Rule", "Pair", "Pairs", "re", "parse", "state", "pairs",
+    "matched", "inner", "rule_frame", "ParserState", "RuleFrame", "main", "Parser", "name", "value", "mro", "_", "__", "RULE_X", "rule_x", "trivia", "EOI_", "eoi",
+]
+
+
+def rename_rules(rules: dict, rnd: random.Random) -> dict:
+    """Same grammar under rule names that stress the code generator (case twins, Python keywords, enum-reserved forms, module globals)."""
+    own = [n for n in rules if n.startswith("r") and n[1:].isdigit()]
+    pool = rnd.sample(HOSTILE_NAMES, len(own))
+    m = dict(zip(own, pool))
+
+    def ren(e):
+        k = e[0]
+        if k == "ref":
+            return ("ref", m.get(e[1], e[1]))
+        if k in ("seq", "alt"):
+            return (k, [ren(x) for x in e[1]])
+        if k in ("opt", "star", "plus", "and", "not", "push", "group"):
+            return (k, ren(e[1]))
+        if k in ("exact", "min", "max"):
+            return (k, ren(e[1]), e[2])
+        if k == "minmax":
+            return (k, ren(e[1]), e[2], e[3])
+        if k == "tag":
+            return ("tag", e[1], ren(e[2]))
+        return e
+
+    return {m.get(n, n): (mod, ren(x)) for n, (mod, x) in rules.items()}
+
+
+def _replace_missing_trivia_refs(e, rules):
+    k = e[0]
+    if k == "ref" and e[1] in ("WHITESPACE", "COMMENT") and e[1] not in rules:
+        return ("str", " ")
+    if k in ("seq", "alt"):
+        return (k, [_replace_missing_trivia_refs(x, rules) for x in e[1]])
+    if k in ("opt", "star", "plus", "and", "not", "push", "group"):
+        return (k, _replace_missing_trivia_refs(e[1], rules))
+    if k in ("exact", "min", "max"):
+        return (k, _replace_missing_trivia_refs(e[1], rules), e[2])
+    if k == "minmax":
+        return (k, _replace_missing_trivia_refs(e[1], rules), e[2], e[3])
+    if k == "tag":
+        return ("tag", e[1], _replace_missing_trivia_refs(e[2], rules))
+    return e
+
+
+# ----------------------------------------------------------------------------------------
+# stack scenarios: parse-driven histories of push / pop / checkpoint / commit / rollback
+
+
+def stack_scenario(rnd: random.Random) -> dict:
+    """prologue of pushes ~ nested backtracking constructs over stack operations ~ epilogue that reads the stack back.
+
+    DROP changes the stack without needing input, "!" is a literal that is (almost) never in the
+    input, so inner constructs commit stack changes and outer ones fail afterwards: exactly the
+    histories in which the snapshotting stack has to hand popped items over to enclosing snapshots.
+    """
+    letters = ["a", "b", "c"]
+
+    def leaf():
+        c = rnd.random()
+        if c < 0.30:
+            return ("drop",)
+        if c < 0.45:
+            return ("pop",)
+        if c < 0.65:
+            return ("pushlit", rnd.choice(letters))
+        if c < 0.72:
+            return ("push", ("range", "a", "c"))
+        if c < 0.80:
+            return ("peek",)
+        if c < 0.90:
+            return ("str", "!")
+        return ("str", rnd.choice(letters))
+
+    def node(d):
+        if d <= 0 or rnd.random() < 0.25:
+            return leaf()
+        c = rnd.random()
+        if c < 0.40:
+            return ("seq", [node(d - 1) for _ in range(rnd.randint(2, 4))])
+        if c < 0.60:
+            return ("opt", node(d - 1))
+        if c < 0.80:
+            return ("alt", [node(d - 1), node(d - 1)] + ([("str", "")] if rnd.random() < 0.5 else []))
+        if c < 0.88:
+            return ("and", node(d - 1))
+        if c < 0.94:
+            return ("not", node(d - 1))
+        return ("group", node(d - 1))
+
+    pro = [("pushlit", rnd.choice(letters)) if rnd.random() < 0.7 else ("push", ("range", "a", "c")) for _ in range(rnd.randint(1, 4))]
+    body = [node(rnd.randint(2, 4)) for _ in range(rnd.randint(1, 2))]
+    epi = rnd.choice(
+        [
+            [("popall",), ("eoi",)],
+            [("star", ("pop",)), ("eoi",)],
+            [("pop",), ("opt", ("pop",)), ("opt", ("pop",)), ("eoi",)],
+            [("peekall",), ("popall",), ("eoi",)],
+            [("slice", None, None), ("eoi",)],
+        ]
+    )
+    return {"r": ("", ("seq", pro + body + epi))}
+
+
+# "dig below the snapshot" family (bounded-exhaustive): pushes ~ OUTER( pushes ~ direct pops ~ INNER( pops ) ~ fail ) ~ read back
+DIG_OUTER = ["alt_first", "opt", "star", "and", "not", "alt_second_after_fail"]
+DIG_INNER = ["none", "opt", "alt", "star", "group", "and_then_real"]
+
+
+def stack_dig_size() -> int:
+    return 3 * len(DIG_OUTER) * 3 * 3 * len(DIG_INNER) * 4 * 2
+
+
+def stack_dig_case(index: int):
+    """index -> (label, rules, targeted inputs)."""
+    i = index
+    before = 1 + i % 3
+    i //= 3
+    outer = DIG_OUTER[i % len(DIG_OUTER)]
+    i //= len(DIG_OUTER)
+    inside = i % 3
+    i //= 3
+    direct = i % 3
+    i //= 3
+    inner = DIG_INNER[i % len(DIG_INNER)]
+    i //= len(DIG_INNER)
+    npop = 1 + i % 4
+    i //= 4
+    fails = i % 2 == 0  # the outer construct fails after the inner one committed (else it succeeds: commits must be kept)
+    letters = "abc"
+    pro = [("pushlit", letters[k]) for k in range(before)]
+    ins = [("pushlit", "xyz"[k]) for k in range(inside)]
+    pops = [("drop",) for _ in range(npop)]
+    if inner == "none":
+        inner_e = ("seq", pops) if len(pops) > 1 else pops[0]
+    elif inner == "opt":
+        inner_e = ("opt", ("seq", pops) if len(pops) > 1 else pops[0])
+    elif inner == "alt":
+        inner_e = ("alt", [("seq", pops + [("str", "")]), ("str", "?")])
+    elif inner == "star":
+        inner_e = ("star", ("seq", [("drop",), ("and", ("str", ""))])) if npop > 1 else ("opt", ("drop",))
+    elif inner == "group":
+        inner_e = ("group", ("seq", pops) if len(pops) > 1 else pops[0])
+    else:
+        inner_e = ("seq", [("and", ("seq", pops) if len(pops) > 1 else pops[0]), ("opt", ("seq", pops) if len(pops) > 1 else pops[0])])
+    body = ins + [("drop",) for _ in range(direct)] + [inner_e] + ([("str", "!")] if fails else [])
+    body_e = ("seq", body) if len(body) > 1 else body[0]
+    if outer == "alt_first":
+        outer_e = ("alt", [body_e, ("str", "")])
+    elif outer == "opt":
+        outer_e = ("opt", body_e)
+    elif outer == "star":
+        outer_e = ("star", ("seq", [body_e, ("str", "-")])) if fails else ("opt", body_e)
+    elif outer == "and":
+        outer_e = ("and", body_e)
+    elif outer == "not":
+        outer_e = ("not", body_e)
+    else:
+        outer_e = ("alt", [("seq", [("pushlit", "q"), ("str", "!")]), body_e, ("str", "")])
+    rules = {"r": ("", ("seq", pro + [outer_e, ("popall",), ("eoi",)]))}
+    want = "".join(reversed(letters[:before]))
+    inputs = ["", want, want[:-1], want + "a", "!" + want, want[::-1], "zyx" + want, "x" + want]
+    label = f"stackdig/{before}/{outer}/{inside}/{direct}/{inner}/{npop}/{'fail' if fails else 'commit'}"
+    return label, rules, inputs
 
 
 # ----------------------------------------------------------------------------------------
@@ -205,6 +396,10 @@ def alphabet(rules: dict, extra: str = "") -> list[str]:
             elif k == "newline":
                 chars.add("\n")
     chars.update(extra)
+    if "k" in chars:
+        chars.add("\u212a")  # KELVIN SIGN: Unicode case-fold partner of k
+    if "s" in chars and "\u00df" not in chars and len(chars) < 6:
+        chars.add("\u00df")
     if not chars:
         chars.add("a")
     # one foreign character and one case twin keep the reject side honest
@@ -448,6 +643,12 @@ CONSTRUCTS: list[tuple[str, tuple, bool]] = [
     ("peekall_bare", ("peekall",), True),
     ("slice", ("seq", [("push", ("str", "a")), ("push", ("str", "b")), ("slice", 0, 1), ("slice", None, None)]), True),
     ("slice_bare", ("slice", None, None), True),
+    ("ci_sharp_s_choice", ("alt", [("ci", "\u00df"), ("range", "a", "b")]), False),
+    ("ci_kelvin_choice", ("alt", [("ci", "k"), ("str", "x")]), False),
+    ("ci_long_choice", ("alt", [("ci", "ss"), ("ci", "fi"), ("str", "xy")]), False),
+    ("push_empty_peek", ("seq", [("push", ("opt", ("str", "a"))), ("peek",), ("str", "b"), ("pop",)]), True),
+    ("push_empty_pop", ("seq", [("push", ("star", ("str", "a"))), ("str", "b"), ("pop",), ("opt", ("peek",))]), True),
+    ("push_empty_peekall", ("seq", [("push", ("alt", [("str", "ab"), ("str", "")])), ("pushlit", "b"), ("peekall",), ("slice", 0, 1), ("popall",)]), True),
     ("push_choice_undo", ("seq", [("pushlit", "a"), ("alt", [("seq", [("opt", ("pop",)), ("str", "z")]), ("seq", [("str", "a"), ("pop",)])])]), True),
 ]
 
